@@ -52,3 +52,33 @@ package listoffsets
 //@   implements protocol.BrokerMessage
 //@   notimplements protocol.GroupMessage
 //@   notimplements protocol.TransactionalMessage
+
+//@ property C12
+// Routing (C12): a list-offsets request (one topic, one partition, as produced by Split) goes to the broker the cluster
+// metadata names as LEADER of that partition: either some partition entry of the topic has the requested id and the
+// result is the broker registered under that entry's Leader id, or no entry has the requested id and the result is the
+// "no broker" value (ID -1).
+//@ func (*Request).Broker
+//@   requires r != nil && len(r.Topics) >= 1 && len(r.Topics[0].Partitions) >= 1
+//@   ensures result1 == nil
+//@   ensures (exists q int :: haskey(cluster.Topics[r.Topics[0].Topic].Partitions, q) && cluster.Topics[r.Topics[0].Topic].Partitions[q].ID == r.Topics[0].Partitions[0].Partition && result0.ID == cluster.Brokers[cluster.Topics[r.Topics[0].Topic].Partitions[q].Leader].ID && result0.Port == cluster.Brokers[cluster.Topics[r.Topics[0].Topic].Partitions[q].Leader].Port && same(result0.Host, cluster.Brokers[cluster.Topics[r.Topics[0].Topic].Partitions[q].Leader].Host)) || (result0.ID == -1 && len(result0.Host) == 0 && (forall q int :: haskey(cluster.Topics[r.Topics[0].Topic].Partitions, q) ==> cluster.Topics[r.Topics[0].Topic].Partitions[q].ID != r.Topics[0].Partitions[0].Partition))
+//@   loop 0 invariant forall q int :: visited(q) ==> cluster.Topics[topic].Partitions[q].ID != partition
+
+//@ property C19
+// Split (C19): every per-partition sub-request carries the ReplicaID and the IsolationLevel of the request it was split
+// from (a read-committed query must stay read-committed: the last stable offset, not the high watermark), and exactly
+// one topic with one partition entry copied from the original.
+//@ func (*Request).Split
+//@   option noframe
+//@   option allocbound
+//@   modifies heap
+//@   requires r != nil
+//@   ensures result2 == nil
+//@   ensures forall a :: 0 <= a && a < len(result0) ==> typeis(result0[a], "*listoffsets.Request") && deref(result0[a], "listoffsets.Request").ReplicaID == r.ReplicaID && deref(result0[a], "listoffsets.Request").IsolationLevel == r.IsolationLevel
+//@   loop 0 invariant fresh(requests) && (forall a :: 0 <= a && a < len(requests) ==> requests[a].ReplicaID == r.ReplicaID && requests[a].IsolationLevel == r.IsolationLevel && len(requests[a].Topics) == 1 && len(requests[a].Topics[0].Partitions) == 1)
+//@   loop 1 invariant fresh(requests) && (forall a :: 0 <= a && a < len(requests) ==> requests[a].ReplicaID == r.ReplicaID && requests[a].IsolationLevel == r.IsolationLevel && len(requests[a].Topics) == 1 && len(requests[a].Topics[0].Partitions) == 1)
+//@   loop 2 invariant -1 <= rangeindex && rangeindex < len(requests) && len(messages) == len(requests) && fresh(messages) && fresh(requests)
+//@   loop 2 invariant forall a :: 0 <= a && a < len(requests) ==> requests[a].ReplicaID == r.ReplicaID && requests[a].IsolationLevel == r.IsolationLevel
+//@   loop 2 invariant forall a :: 0 <= a && a <= rangeindex ==> typeis(messages[a], "*listoffsets.Request")
+//@   loop 2 invariant forall a :: 0 <= a && a <= rangeindex ==> typeis(messages[a], "*listoffsets.Request") && deref(messages[a], "listoffsets.Request").ReplicaID == r.ReplicaID
+//@   loop 2 invariant forall a :: 0 <= a && a <= rangeindex ==> typeis(messages[a], "*listoffsets.Request") && deref(messages[a], "listoffsets.Request").IsolationLevel == r.IsolationLevel
